@@ -396,7 +396,7 @@ def _nested(prog: Program, res: Result):
     # each candidate list starts from an empty record: the dictionary the per-list search fills (and which is kept per list under
     # calculated_temperatures_nested[i]) is a NEW one in every trip, created before the search of that list
     search_call = next((c_ for c_ in ast.walk(loop) if isinstance(c_, ast.Call) and attr_chain(c_.func) == "self.search"), None)
-    resets = [a_ for a_ in loop.body if isinstance(a_, ast.Assign) and any(attr_chain(t_) == "self.calculated_temperatures" for t_ in a_.targets)
+    resets = [a_ for a_ in ast.walk(loop) if isinstance(a_, ast.Assign) and any(attr_chain(t_) == "self.calculated_temperatures" for t_ in a_.targets)
               and ((isinstance(a_.value, ast.Dict) and not a_.value.keys) or (isinstance(a_.value, ast.Call) and attr_chain(a_.value.func) == "dict" and not a_.value.args and not a_.value.keywords))]
     okr = search_call is not None and any(a_.lineno < search_call.lineno for a_ in resets)
     res.ob("R05.3", "every candidate list is searched with a fresh, empty record of evaluations", okr, prog.loc(fi, loop))
